@@ -142,7 +142,11 @@ class InstrumentedServer:
             elif isinstance(self.auth, list):
                 authenticated = client_auth in self.auth
             else:
-                authenticated = self.auth(client_auth)
+                try:
+                    authenticated = self.auth(client_auth)
+                except Exception:
+                    self.sio.logger.exception('admin auth function failed')
+                    authenticated = False
             if not authenticated:
                 raise ConnectionRefusedError('authentication failed')
 
